@@ -20,26 +20,33 @@ E   == Evs[l + 1]
 Last == Evs[l]
 
 TInit == /\ tid \in 1..Len(Traces)
-         /\ dim = Traces[tid].dim /\ arr = Traces[tid].arr0 /\ arr0 = arr
+         /\ dim = Traces[tid].dim /\ arr = Traces[tid].arr0 /\ arr0 = arr /\ brr = BInit
          /\ hist = <<>> /\ last = [out |-> "ok", ret |-> <<>>]
          /\ l = 0
 
 Consume == l < Len(Evs) /\ l' = l + 1 /\ tid' = tid
 
 TNext == Consume /\
-    \/ (E.a = "get"     /\ Get1(E.i, E.ik))
-    \/ (E.a = "set"     /\ Set1(E.i, E.ik, E.v))
-    \/ (E.a = "get2"    /\ Get2(E.i, E.ik, E.j, E.jk))
-    \/ (E.a = "getrow"  /\ GetRow(E.i, E.ik))
-    \/ (E.a = "set2"    /\ Set2(E.i, E.ik, E.j, E.jk, E.v))
+    \/ (E.a = "get"     /\ Get1(E.i, E.ik, E.re))
+    \/ (E.a = "set"     /\ Set1(E.i, E.ik, E.v, E.re))
+    \/ (E.a = "getb"    /\ GetB(E.i, E.ik, E.re))
+    \/ (E.a = "setb"    /\ SetB(E.i, E.ik, E.v, E.re))
+    \/ (E.a = "get2"    /\ Get2(E.i, E.ik, E.j, E.jk, E.re))
+    \/ (E.a = "getrow"  /\ GetRow(E.i, E.ik, E.re))
+    \/ (E.a = "set2"    /\ Set2(E.i, E.ik, E.j, E.jk, E.v, E.re))
     \/ (E.a = "copyrow" /\ CopyRow(E.i, E.j, E.jk))
 
 TSpec == TInit /\ [][TNext]_tvars
 
+\* the trace specification is total on recorded histories: no event is left unexamined because its action is disabled
+Inv_Total  == l < Len(Evs) => /\ E.a \in {"get", "set", "getb", "setb", "get2", "getrow", "set2", "copyrow"}
+                              /\ ReOk(E.re, E.i, E.ik, E.j, E.jk)
+                              /\ (E.a \in {"get", "set", "getb", "setb"} <=> dim = 1)
+                              /\ (E.a = "copyrow" => E.i \in 0..(Len(arr) - 1))
 \* an index outside the bounds raises, an index inside does not
 Inv_Bounds == l >= 1 => Last.out = last.out
 \* a read returns the element at the index
-Inv_Read   == (l >= 1 /\ last.out = "ok" /\ Last.out = "ok" /\ Last.a \in {"get", "get2", "getrow"}) => Last.ret = last.ret
+Inv_Read   == (l >= 1 /\ last.out = "ok" /\ Last.out = "ok" /\ Last.a \in {"get", "getb", "get2", "getrow"}) => Last.ret = last.ret
 \* after every access every cell holds what the list semantics says: a write replaced exactly one element
-Inv_Cells  == l >= 1 => Last.cells = Flat(arr)
+Inv_Cells  == l >= 1 => Last.cells = Cells
 =============================================================================
